@@ -51,6 +51,20 @@ def hand_built():
     d.delegation("ex:undeclared1", "ex:undeclared2")
     d.start("ex:a", None, "ex:starter")                             # second argument missing: no edge
     yield "shared-identifier+undeclared", d
+    # relations of different kinds sharing one identifier between the same ordered pair of nodes (unified() keeps both:
+    # it merges per kind), next to relations with distinct identifiers and an anonymous one (seed C14-E)
+    d = ProvDocument()
+    d.add_namespace("ex", "http://example.org/")
+    d.activity("ex:a")
+    d.entity("ex:e")
+    d.entity("ex:e2")
+    d.start("ex:a", "ex:e", identifier="ex:r")
+    d.end("ex:a", "ex:e", identifier="ex:r")
+    d.derivation("ex:e2", "ex:e", identifier="ex:r2")
+    d.influence("ex:e2", "ex:e", identifier="ex:r2")
+    d.specialization("ex:e2", "ex:e")
+    d.alternate("ex:e2", "ex:e")
+    yield "kinds-sharing-an-identifier", d
     # every relation kind as a self-loop on an identifier declared nowhere, followed by a second relation naming it
     from prov.model import PROV_REC_CLS
     for kind, cls in sorted(PROV_REC_CLS.items(), key=lambda kv: kv[0].uri):
